@@ -10,10 +10,10 @@ PROP = dict(
         dict(module="MCClientTracingConc", cfg=dict(quick="MCClientTracingConc_quick.cfg", thorough="MCClientTracingConc_thorough.cfg"),
              timeout=dict(quick=600, thorough=3000), workers=4),
         # as-built / mutated variants of the model: each must reproduce its counterexample (non-vacuity)
-        dict(module="MCClientTracing", cfg="MCClientTracing_asbuilt_D40.cfg", expect_violation="InvOpClean", timeout=300, workers=1),        # D40: op.Params/op.Reader left replaced
-        dict(module="MCClientTracing", cfg="MCClientTracing_asbuilt_D40_leak.cfg", expect_violation="InvFinished", timeout=300, workers=1),  # D40: ... hence a leaked span on reuse
-        dict(module="MCClientTracing", cfg="MCClientTracing_asbuilt_D41.cfg", expect_violation="InvError", timeout=300, workers=1),          # D41: ServerStatus on a client span
-        dict(module="MCClientTracingConc", cfg="MCClientTracingConc_asbuilt_D42.cfg", expect_violation="InvNoRace", timeout=300, workers=1), # D42: append into the shared options
+        dict(module="MCClientTracing", cfg="MCClientTracing_asbuilt_D50.cfg", expect_violation="InvOpClean", timeout=300, workers=1),        # D50: op.Params/op.Reader left replaced
+        dict(module="MCClientTracing", cfg="MCClientTracing_asbuilt_D50_leak.cfg", expect_violation="InvFinished", timeout=300, workers=1),  # D50: ... hence a leaked span on reuse
+        dict(module="MCClientTracing", cfg="MCClientTracing_asbuilt_D51.cfg", expect_violation="InvError", timeout=300, workers=1),          # D51: ServerStatus on a client span
+        dict(module="MCClientTracingConc", cfg="MCClientTracingConc_asbuilt_D52.cfg", expect_violation="InvNoRace", timeout=300, workers=1), # D52: append into the shared options
         dict(module="MCClientTracingConc", cfg="MCClientTracingConc_mutant_sharedvar.cfg", expect_violation="InvIsolation", timeout=300, workers=1),  # span kept in a transport field
     ],
     gen=dict(module="GenClientTracing", cfg=dict(quick="GenClientTracing_quick.cfg", thorough="GenClientTracing_thorough.cfg"), timeout=900),
@@ -26,7 +26,7 @@ PROP = dict(
                "parent, tags, status, error flag, finish count, use after finish, injected ids, invocations of the caller's writer and "
                "reader, returned error, operation value unchanged). TLC checks model |= Prop at every return for all scripts and all "
                "interleavings, span-store sanity at every state, termination under weak fairness, and that the as-built variants "
-               "(D40 operation left modified / leaked span on reuse, D41 ServerStatus, D42 shared option slice) and the shared-span-"
+               "(D50 operation left modified / leaked span on reuse, D51 ServerStatus, D52 shared option slice) and the shared-span-"
                "variable mutant violate. GenClientTracing exports every termination script and every gate interleaving; the driver "
                "replays them on real client.Runtime + WithOpenTracing/WithOpenTelemetry with recording decorators around mocktracer and "
                "the OpenTelemetry SDK (in-memory span recorder), each call also without tracing; TLC validates every span event as it "
